@@ -46,6 +46,7 @@ THEOREMS = [
         "rbe3_normal_invertible rbe3_alg_reproduces rbe3_reproduces_rb rbe3_rigid_motion rbe3_rows_are_rbgeom_uset "
         "rbe3_fullrank_three_grids rbe3_reproduces_rb_three_grids "
         "rbe3_um_indep rbe3_um_mixed rbe3_um_dep um_plan_branch um_plan_indep um_plan_dep "
+        "rbe3_um_any rbe3_um_any_grids "
         "chain_order_irrelevant chain_circular_refused chain_dup_unequal_refused chain_resolved"
     ).split()
 ]
@@ -76,11 +77,11 @@ ASSUMPTIONS = [
     "terminate then and the model answers `diverges`)",
 ]
 PARTIAL = (
-    "partial: that umPlan's index lists are a partition of the DOF (the IsPartition hypothesis of rbe3_um_indep / "
-    "rbe3_um_mixed) and the final row / column reordering of formrbe3's UM_List result are tied by the "
-    "correspondence only (the branch choice itself is proved: um_plan_branch); that a well-founded set of cards "
-    "always resolves (build_coords succeeds) is correspondence-only; the rbe3 theorems assume an exact linear "
-    "solver; all geometry theorems are over the reals (round-off is measured by the correspondence, never proved)"
+    "partial: the list-level wrapper formRbe3 (sorting Ind_List / UM_List into uset order, conversion of the DOF "
+    "lists into index maps) around rbe3Grid / umPlan / umApplyMx is tied by the correspondence only; that a "
+    "well-founded set of cards always resolves (build_coords succeeds) is correspondence-only; the rbe3 theorems "
+    "assume an exact linear solver and, for a UM_List, that the block the taken branch inverts is invertible; all "
+    "geometry theorems are over the reals (round-off is measured by the correspondence, never proved)"
 )
 MANIFEST = {
     "level_text": "Proof (Lean 4, Mathlib, standard axioms) about polymorphic models of n2p's coordinate and "
@@ -93,8 +94,10 @@ MANIFEST = {
     "recovers p − ref in every branch; replace_basic_cs preserves distances and relative orientations; formrbe3's "
     "matrix times the rigid-body rows of the independent DOF (relative to any point) is the rigid-body rows of the "
     "dependent DOF for positive weights and full column rank (which three non-collinear grids with their "
-    "translations guarantee), for every exact solver, the three UM_List re-partitions keep that, and the branch "
-    "taken for a UM_List is determined by where the m-set DOF lie (after the repair 959e8e9); build_coords "
+    "translations guarantee), for every exact solver, and for every admissible UM_List (m-set duplicate-free, inside the dependent and "
+    "independent DOF, as large as the dependent set) the returned matrix — branch choice, re-partition and final "
+    "row / column reordering together — maps the rigid-body rows of the remaining DOF to those of the m-set DOF "
+    "(rbe3_um_any; the branch is determined by where the m-set DOF lie, as repaired by 959e8e9); build_coords "
     "does not depend on the order of the cards, refuses reference cycles / undefined references / unequal "
     "duplicates, and every entry of its dictionary is the A-B-C construction of its card relative to the entry of "
     "the card's reference. The same definitions run at Float and are compared (numbers to 1e-9, ids / levels / "
@@ -103,7 +106,7 @@ MANIFEST = {
     "all type mixes with scalar points and q-set grids, including azimuths exactly on the branch boundaries.",
     "level_note": "Trusted: Lean kernel; propext, Classical.choice, Quot.sound; the Python harness; libm/LAPACK "
     "agreement with the Float model is measured. That build_coords succeeds on every well-founded card set, "
-    "that umPlan's lists partition the DOF and the final reordering of the UM_List result are correspondence-only. Polar singularities are excluded by the "
+    "and formRbe3's list-level wrapper (sorting into uset order) are correspondence-only. Polar singularities are excluded by the "
     "property.",
     "technique": "Lean 4 proof over ℝ / any field of polymorphic executable models + numeric and exact differential "
     "correspondence at Float",
